@@ -83,17 +83,22 @@ def o_percentile(case):
         grid = (X, Y, np.zeros_like(X))
     else:
         grid = (x, y, np.zeros(1))
+    lvl = case.get("level", 0)
     if len(case["shape"]) == 3:
         X3 = np.broadcast_to(np.meshgrid(x, y)[0], case["shape"])
         Y3 = np.broadcast_to(np.meshgrid(x, y)[1], case["shape"])
-        grid = (X3, Y3, np.zeros(case["shape"]))
+        # real output heights (not 0, 1, 2, ...: "level" is an INDEX into the stack, whatever type of integer carries it)
+        hts = np.array([0.0, 4.0, 8.0, 16.0, 32.0])[: case["shape"][0]]
+        Z3 = np.broadcast_to(hts[:, None, None], case["shape"]).copy()
+        grid = (X3, Y3, Z3 if case.get("zkind", "3d") == "3d" else hts)
         f2 = f[case["level"]]
+        lvl = {"int": int, "int64": np.int64, "int32": np.int32, "intp": np.intp}[case.get("level_type", "int")](case["level"])
     else:
         f2 = f
     cell = dx * dy
     res = []
     for p in case["ps"]:
-        level, area = extract_percentile_contour(f, grid, pct=p, level=case.get("level", 0))
+        level, area = extract_percentile_contour(f, grid, pct=p, level=lvl)
         vals = np.sort(f2.ravel())[::-1]
         total = vals.sum()
         cs = np.cumsum(vals)
@@ -113,7 +118,7 @@ def o_percentile(case):
         if not (a2 >= a1 - 1e-12 and l2 <= l1 + 1e-12):
             return fail("C20/percentile-mono", "area decreases or level increases with p", None, "monotone", [res], 0)
     lam = case["lam"]
-    l3, a3 = extract_percentile_contour(lam * f, grid, pct=case["ps"][0], level=case.get("level", 0))
+    l3, a3 = extract_percentile_contour(lam * f, grid, pct=case["ps"][0], level=lvl)
     if not (abs(l3 - lam * res[0][0]) <= 1e-12 * max(1.0, abs(l3)) and abs(a3 - res[0][1]) <= 1e-9 * cell):
         return fail("C20/percentile-scale", "scaling f does not scale the level / keep the area", None, [lam * res[0][0], res[0][1]], [l3, a3], 1e-12)
     return None
@@ -239,7 +244,14 @@ def run(rng, tier, deep):
         if gk == "float":
             g, gd = rng.normal(size=n), "float64"
         elif gk == "f":
-            g, gd = f.copy(), "float64"
+            # the "contribution" base function: g = the footprint itself (a COPY: rescaling must not alias its input)
+            f_in = f.reshape(shape).copy()
+            g = np.asarray(source_area_contribution(f_in), dtype=float)
+            if g.shape != tuple(shape) or not np.array_equal(g, f.reshape(shape)) or np.shares_memory(g, f_in):
+                st["oracle_failures"].append(dict(key="C20/contribution", what="source_area_contribution is not a copy of the footprint",
+                                                  input=dict(oracle="o_rescale", case=dict(f=f.tolist(), g=f.tolist(), gdtype="float64", shape=shape,
+                                                                                           perm=list(range(n)))), expected="copy of f", observed="differs"))
+            g, gd = g.ravel(), "float64"
         elif gk == "int":
             g, gd = rng.permutation(n).astype(float) if rng.random() < 0.5 else rng.integers(0, 4, n).astype(float), "int64"
         else:
@@ -255,6 +267,7 @@ def run(rng, tier, deep):
             ps = sorted(float(x) for x in rng.uniform(0.02, 1.0, 3)) + [1.0]
             run_oracle(st, o_percentile, dict(f=f.tolist(), shape=shape, dx=float(rng.uniform(0.5, 10)), dy=float(rng.uniform(0.5, 10)),
                                               coords=str(rng.choice(["2d", "1d"])) if not three_d else "3d", ps=ps, level=int(rng.integers(0, 2)) if three_d else 0,
+                                              level_type=str(rng.choice(["int", "int64", "int32", "intp"])), zkind=str(rng.choice(["3d", "1d"])),
                                               lam=float(rng.uniform(0.1, 10))))
     for _ in range(budget(tier, deep, 120, 1500)):
         run_oracle(st, o_base_grid, gen_base_grid(rng))
